@@ -86,10 +86,33 @@ def _api_machine(ctx, quick, sim_len, n_sim):
     return tf
 
 
+def _threads_model(ctx, quick):
+    """spec/MC_Threads.tla: threads sharing one Domain, one step per access to the shared heap.  The library's design
+    ("pure") keeps every result equal to the call made on its own in every interleaving; the two sharing designs are
+    clean without pre-emption (SeqOnly) and refuted with a single pre-emption - the schedule family drive_threads
+    forces on the library."""
+    def consts(mode, seq, nt, nc, sw):
+        return {"Mode": f'"{mode}"', "SeqOnly": "TRUE" if seq else "FALSE", "NThreads": nt, "NCalls": nc, "MaxSwitch": sw}
+    nt, nc = (2, 2) if quick else (3, 2)
+    ctx.mc("MC_Threads", consts("pure", False, nt, nc, 99), ["ThreadFaithful", "Restored", "MemoSound"],
+           label=f"MC_Threads:pure:{nt}x{nc}")
+    if not quick:
+        ctx.mc("MC_Threads", consts("pure", False, 2, 3, 99), ["ThreadFaithful", "Restored", "MemoSound"],
+               label="MC_Threads:pure:2x3")
+    for mode in ("tempSig", "tornMemo"):
+        ctx.mc("MC_Threads", consts(mode, True, 2, 2, 99), ["ThreadFaithful", "Restored", "MemoSound"],
+               label=f"MC_Threads:{mode}:sequential")
+        ctx.mc("MC_Threads", consts(mode, False, 2, 1, 1), ["ThreadFaithful"], expect_violation=True,
+               label=f"MC_Threads:{mode}:onePreemption")
+    ctx.mc("MC_Threads", consts("pure", False, 2, 1, 1), ["NeverPreempted"], expect_violation=True,
+           label="MC_Threads:nonvacuous")
+
+
 def run_c07(ctx):
     quick = ctx.quick
     ctx.mc("MC_Plan", {"MaxLen": 3}, ["RunRefines", "ChainHolds"])
     _api_machine(ctx, quick, 6, 400 if quick else 8000)
+    _threads_model(ctx, quick)
     rc = random_hist(ctx, 200 if quick else 4000, 22, base=10000, sparse_init=True)
     for c in rc:
         c["groundrep"] = True
